@@ -1,6 +1,6 @@
 SPECIFICATION Spec
 CONSTANTS
-  DtNames = {"PK", "ST", "IN", "FC", "IC", "NS"}
+  DtNames = {"ST", "IN", "NS", "NE", "DN"}
   Edits = 1
   MaxTail = 2
   Wide = FALSE
